@@ -104,6 +104,12 @@ def o_cross(rec: Recorder, case, soft=False):
         if lh.verify(hash=hs.encode("ascii"), secret=wrong) is not False:
             rec.fail(f"C20/wrong-password-accepted-by-libpass/{pair}", "libpass verifies a wrong password against a passlib hash", "cross", case, True, False, soft=soft)
             return
+        # verification must not depend on the cost the verifying hasher is configured with
+        other = lib_hasher(pair, 1234 if pair.startswith("sha") else (7 if pair.startswith("pbkdf2") else (5 if rounds == 4 else 4)))
+        st, r = call(lambda: other.verify(hash=hs, secret=secret))
+        if st == "err" or r is not True:
+            rec.fail(f"C20/verify-depends-on-configured-cost/{pair}/{label}", f"a {label} {pname} hash verifies under a libpass hasher only if it is configured with the same cost", "cross", case, repr(r), True, soft=soft)
+            return
         if lh.identify(hs) is not True:
             rec.fail(f"C20/identify-own-format/{pair}/{label}", f"libpass {PAIRS[pair][0]} does not identify a {label} hash of its format", "cross", case, False, True, soft=soft)
             return
